@@ -140,7 +140,7 @@ func windowScenario(c *sup.Ctx, r *rng.R, props []string) {
 				if msg != "" {
 					ps := props
 					if strings.Contains(ru.name, "/") {
-						ps = []string{"C03", "C07", "C14"}
+						ps = []string{"C01", "C03", "C07", "C14"}
 					}
 					c.Viol(ps, fmt.Sprintf("window|%s|%s|%s", ru.name, pre, rival), msg, res)
 				}
